@@ -33,10 +33,17 @@ class FuseMHAScale(pattern.RewriteRuleClassBase):
         )
         return mha_output
 
-    def check(self, context, scale, **_):
+    def check(self, context, scale, mha_output, **_):
         scale_value = _ir_utils.get_singleton_value(scale)
         if scale_value is None or not isinstance(scale_value, (int, float)):
             return pattern.MatchResult().fail("Scale must be a constant numeric value.", scale)
+        mha_node = mha_output.producer()
+        if mha_node is not None and len(mha_node.inputs) > 3 and mha_node.inputs[3] is not None:
+            # MultiHeadAttention adds its packed bias to the query BEFORE scaling the scores:
+            # folding the query's pre-scale into `scale` would scale the bias as well.
+            return pattern.MatchResult().fail(
+                "Cannot fold the query scale into an MHA node that has a bias input.", mha_output
+            )
         self._scale = scale_value
         return True
 
